@@ -267,10 +267,10 @@ theorem allocBound_h264Push (st : Media.H264St) (seq ts : Nat) (marker : Bool) (
       st seq ts marker payload.toArray (b := b) (n := 0) (by simp) (fun _ _ h _ => by simpa using h))
   exact h
 
-/-- the UDPTL datagram parse (primary + redundant IFP walk) and first delivery are total; allocation ≤ 17·|bs|. -/
+/-- the UDPTL datagram parse (primary + redundant IFP walk) and first delivery are total; allocation ≤ 17·|bs| + 1400 (the receive buffer of the default configuration). -/
 theorem noPanic_udptl (bs : List UInt8) (s : String) : runSlice Media.udptlRecv bs ≠ .panic s :=
   safe_noPanic (Media.udptlRecv_safe bs.toArray _) s
-theorem allocBound_udptl (bs : List UInt8) : (runSlice Media.udptlRecv bs).allocs ≤ 17 * bs.length := by
+theorem allocBound_udptl (bs : List UInt8) : (runSlice Media.udptlRecv bs).allocs ≤ 17 * bs.length + 1400 := by
   simpa [runSlice] using safe_allocs (Media.udptlRecv_safe bs.toArray (Buf.ofList []))
 
 /-! ## signaling side (src/transports/ice/mod.rs candidate lines, src/peer_connection.rs mid arithmetic) -/
